@@ -1,17 +1,22 @@
 #!/usr/bin/env python3
 """Writes harness/formats.txt: the FORMAT constants instantiated (const generics) in the harness.
-Each line: <I|F|B> <hex u128> <name>. Generators (gens.py / fmtlib.py) only use formats listed here."""
-import os, sys
-sys.path.insert(0, os.path.dirname(os.path.dirname(os.path.abspath(__file__))))
+Each line: <I|F|B> <hex u128> <name>. Generators (gens.py / fmtlib.py) only use formats listed here.
+Per-property catalogues `fmtcat_*.py` (each with `extra_formats()`) are appended."""
+import glob, importlib, os, sys
+ROOT = os.path.dirname(os.path.dirname(os.path.abspath(__file__)))
+sys.path.insert(0, ROOT)
 import fmtlib
 
+formats = list(fmtlib.all_formats())
+for p in sorted(glob.glob(os.path.join(ROOT, "fmtcat_*.py"))):
+    formats += importlib.import_module(os.path.basename(p)[:-3]).extra_formats()
 lines = []
 seen = set()
-for kind, val, name in fmtlib.all_formats():
+for kind, val, name in formats:
     key = (kind, val)
     if key in seen:
         continue
     seen.add(key)
     lines.append("%s %x %s" % (kind, val, name))
-open(os.path.join(os.path.dirname(os.path.dirname(os.path.abspath(__file__))), "harness", "formats.txt"), "w").write("\n".join(lines) + "\n")
+open(os.path.join(ROOT, "harness", "formats.txt"), "w").write("\n".join(lines) + "\n")
 print(len(lines), "formats")
